@@ -19,7 +19,7 @@ use tokio::io::{AsyncRead, AsyncWriteExt};
 fn prefilled(free: &[i16]) -> HandlerMapProbe {
     let mut p = HandlerMapProbe::new();
     for i in 0..32768u64 {
-        p.allocate(1_000_000 + i).expect("prefill");
+        p.allocate((1u64 << 62) + i as u64).expect("prefill");   // far above every base + r of the sequences (a run of > 10 000 sequences once reached 1 000 000)
     }
     for s in free {
         // the dummy owner of `s` gets its response: the id becomes free
